@@ -200,11 +200,14 @@ fn main() {
     // randoms with a protocol-defined meaning (HelloRetryRequest value, downgrade sentinels) are still just randoms here
     let magic: Vec<W> = cat::magic_hellos().into_iter().filter(|w| w.buf[0] != 2 || w.buf.len() > 4 && w.lens.iter().all(|l| l.label != "dtls_length")).collect();
     sink.merge(struct_sweep(&run, &[&MSG_HANDSHAKE], &magic.iter().filter(|w| w.lens.first().map_or(false, |l| l.label == "hs_len")).cloned().collect::<Vec<_>>(), 1, &sfx, 64, &no_extra));
+    // the RFC 8446 layouts of the same message types: a decoder that also "understands" them changes what the
+    // TLS 1.2 layout means for some input
+    sink.merge(struct_sweep(&run, &[&MSG_HANDSHAKE], &cat::tls13_messages(), run.tier.pick(0, 1), &sfx, 64, &no_extra));
     sink.merge(struct_sweep(&run, &[&MSG_HANDSHAKE], &wrapped(&cat::handshake_messages(false), 1), 0, &sfx, 16, &no_extra));
     for server in [true, false] {
         sink.merge(grid_sweep(&run, &[&MSG_HANDSHAKE], 64, &|c, n| cat::hello_grid(server, false, thorough, c, n), &no_wrap, &no_extra));
     }
-    for style in [1u8, 3, 4, 6, 7, 8, 10, 11] {
+    for style in [1u8, 3, 4, 6, 7, 8, 10, 11, 12, 13, 14, 15] {
         use vcommon::en::with_fill_style as wfs;
         sink.merge(struct_sweep(&run, &[&MSG_HANDSHAKE], &wfs(style, || cat::handshake_messages(false)), 0, &sfx, 64, &no_extra));
     }
